@@ -3,7 +3,8 @@ from contracts.workspace_io import CloseFlushes, FetchChildrenClosed
 from contracts.removal import ConcatAttributesPending
 from contracts.tree import OpenMode, OpenOnOpenWorkspace, OpenResetsRegistries
 from contracts.sessions import CloseHistories
-CONTRACTS = [IoCall, Geoh5Getter, CloseContract, CloseFlushes, ExitContract, FetchActiveWorkspace, OpenOnOpenWorkspace, OpenResetsRegistries, OpenMode, FetchChildrenClosed, ConcatAttributesPending, CloseHistories]
+from contracts.reader import FetchAttributes, FetchTypeAttributesStub, FetchPropertyGroupsStub
+CONTRACTS = [IoCall, Geoh5Getter, CloseContract, CloseFlushes, ExitContract, FetchActiveWorkspace, OpenOnOpenWorkspace, OpenResetsRegistries, OpenMode, FetchChildrenClosed, ConcatAttributesPending, FetchTypeAttributesStub, FetchPropertyGroupsStub, FetchAttributes, CloseHistories]
 
 MANIFEST = {
     "category": "proof",
